@@ -422,10 +422,17 @@ def build_stream(seq, combo):
     return code, [(o, nm, b) for o, nm, b in items]
 
 
+def _bare_payload(p):
+    code, lst = build_stream([], (p,))
+    return lst[-1][2]
+
+
 def fault_bases():
-    """Base set for the fault half: every catalogue instruction alone; every payload combination behind 0 / 1 instruction."""
+    """Base set for the fault half: every payload alone; every catalogue instruction alone; every payload combination
+    (with its referencing 31t instructions and alignment nops) behind 0 / 1 instruction."""
     cat = catalogue()
-    out = [build_stream([c], ())[0] for c in cat]
+    out = [_bare_payload(p) for p in payload_specs()]              # bare payloads first: smallest witnesses
+    out += [build_stream([c], ())[0] for c in cat]
     mv = ("move", D.enc("move", 1, 2))
     for combo in payload_combos():
         if not combo:
@@ -483,7 +490,10 @@ def _run(acc, env, buf, size, family, listing=None):
         if prob or [(o, nm, ln) for o, nm, ln, _ in lst] != [(o, nm, len(b)) for o, nm, b in listing]:
             acc.harness_error("reference sweep disagrees with the assembler on %s: %r %r vs %r" % (buf.hex(), lst, prob, listing))
     for key, msg in viols:
+        old = acc.viol.get(key)
         acc.violation(key, {"buf": buf.hex(), "size": size}, msg)
+        if old is not None and len(buf) < len(old["witness"]["buf"]) // 2:      # keep the smallest witness of the shard
+            old["witness"], old["msg"] = {"buf": buf.hex(), "size": size}, str(msg)[:2000]
 
 
 def run_shard(ctx, shard):
